@@ -507,7 +507,8 @@ Qed.
 Lemma cmp_set_str_spec t l s :
   cmp_set_str spec_flags t CEq l s = existsb (fun it => beq_bytes (string_value spec_flags t it) s) l.
 Proof.
-  induction l as [|a r IH]; cbn [cmp_set_str existsb]; [reflexivity|].
+  unfold cmp_set_str. cbn [is_relational].
+  induction l as [|a r IH]; cbn [cmp_set_str_eq existsb]; [reflexivity|].
   unfold canon_for. cbn [spec_flags f_canon]. rewrite IH. reflexivity.
 Qed.
 
